@@ -2,6 +2,7 @@
 
 from __future__ import annotations
 
+import contextlib
 from collections.abc import Hashable, Iterable
 from itertools import product
 from typing import TYPE_CHECKING, Any
@@ -197,8 +198,16 @@ class Sweep:
                             dims.append(_dims[0])
                         else:
                             dims.append(_dims)
+        items = dict(self.items)
+        for group in map(at_least_tuple, dims):
+            # unhashable values and unknown names are left to `generate`, as before
+            with contextlib.suppress(TypeError, KeyError):
+                seqs = [self.items[k] for k in group]
+                if len({len(seq) for seq in seqs}) == 1:  # else `generate` raises
+                    rows = list(dict.fromkeys(zip(*seqs)))
+                    items.update({k: [row[i] for row in rows] for i, k in enumerate(group)})
         return Sweep(
-            self.items,
+            items,
             dims=dims,
             exclude=self.exclude,
             constants=self.constants,
